@@ -5,6 +5,7 @@ package p9
 // enters the backend meanwhile (event based).  The verdict is computed in Coq.
 
 import (
+	"fmt"
 	"os"
 	"sort"
 	"strings"
@@ -547,5 +548,66 @@ func TestVerifC07(t *testing.T) {
 	sort.Slice(all, func(i, j int) bool { return all[i].Key < all[j].Key })
 	for _, o := range all {
 		out.Emit(o)
+	}
+	if len(confirm) == 0 {
+		vh07OpenProbe(out)
+	}
+}
+
+// vh07OpenProbe: "Open is invoked at most once on a File" ACROSS fids.  The only way two fids stand for one
+// backend File is Txattrwalk (the new fid borrows the File of the one it was walked from); Tlopen on both, in
+// either order, on a file and on a directory, must not reach File.Open twice.  Raw requests through the
+// client's own connection (the File API offers no Open on an xattr fid).
+func vh07OpenProbe(out *vhOut) {
+	for _, path := range []string{"/d/f", "/d/c"} {
+		for order := 0; order < 2; order++ {
+			fs := vhgNewFS()
+			vh07Seed(fs)
+			env, err := vhgStart(fs, 1)
+			if err != nil {
+				continue
+			}
+			c := env.clients[0]
+			o := map[string]interface{}{"kind": "openprobe", "key": fmt.Sprintf("openprobe|%s|%d", path, order), "path": path, "order": order, "opens": 0, "valid": false, "entered": false, "bdone": false}
+			func() {
+				ra, err := vhgAttach(c)
+				if err != nil {
+					return
+				}
+				f, err := vh07Walk(ra, path)
+				if err != nil {
+					return
+				}
+				cf := f.(*clientFile)
+				xf, ok := c.fidPool.Get()
+				if !ok {
+					return
+				}
+				if err := c.sendRecv(&txattrwalk{fid: cf.fid, newFID: fid(xf), Name: "user.x"}, &rxattrwalk{}); err != nil {
+					return
+				}
+				o["valid"] = true
+				openX := func() { c.sendRecv(&tlopen{fid: fid(xf), Flags: ReadOnly}, &rlopen{}) }
+				openF := func() { c.sendRecv(&tlopen{fid: cf.fid, Flags: ReadOnly}, &rlopen{}) }
+				if order == 0 {
+					openF()
+					openX()
+				} else {
+					openX()
+					openF()
+				}
+			}()
+			fs.mu.Lock()
+			mx := 0
+			for _, n := range fs.opens {
+				if n > mx {
+					mx = n
+				}
+			}
+			fs.mu.Unlock()
+			o["opens"] = mx
+			env.stop(5 * time.Second)
+			out.Emit(o)
+		}
 	}
 }
